@@ -207,7 +207,7 @@ theorem branch_body {fuel : Nat} (ih : SimE fo host P bodies fuel) {cur : Nat} {
     (hwf : wfE t = true) (henf : enFree t = true) (hjoin : P.jumps[join]? = some pcJoin) (hne : join ≠ cur)
     (hpj : pcJoin < P.instrs.size) (hj : P.jumps[cur]? = some entry) (hent : entry < P.instrs.size) :
     tb < P.instrs.size ∧ ResOK fo host P entry tb pcJoin (tailR t) rs vs fr st res st' := by
-  rw [termsAfter_jump hlt hwf hne] at hterm
+  rw [termsAfter_jump] at hterm
   simp only [InstrsAt, and_true] at hterm
   have hsz := lt_size_of_get hterm
   have := len_pos t
@@ -250,7 +250,7 @@ theorem sim_cond {fuel : Nat} (ih : SimE fo host P bodies fuel)
       simp only [Out.ok.injEq, Prod.mk.injEq] at h
       obtain ⟨rfl, rfl⟩ := h
       have htb : tb < P.instrs.size := by
-        rw [termsAfter_jump hlt' hwf.1.2 hne] at hterm
+        rw [termsAfter_jump] at hterm
         simp only [InstrsAt, and_true] at hterm
         have := lt_size_of_get hterm
         omega
@@ -298,7 +298,7 @@ theorem simC_step {fuel : Nat} (ih : SimE fo host P bodies fuel) (ihC : SimC fo 
       with ⟨wc, st1, hx⟩ | ⟨w, st1, hx⟩ | ⟨e, hx⟩ | hx <;> simp only [hx] at h
     · have ihc := (ih c cur st _ _ hx root pc rs vs fr entry hlc hwa.1.1.1 (hen'.imp id (·.1)) hj hent (by omega)).toReach
       have htb : tb < P.instrs.size := by
-        rw [termsAfter_jump hlt' hwa.1.1.2 hne] at hterm
+        rw [termsAfter_jump] at hterm
         simp only [InstrsAt, and_true] at hterm
         have := lt_size_of_get hterm
         omega
@@ -356,15 +356,14 @@ theorem sim_chain {fuel : Nat} (ihC : SimC fo host P bodies fuel)
     rw [tailR_chain]
     exact this
 
-/-- the right operand of `&&` / `||`: laid out at `tb`, followed by `Tis` (unless its own last instruction is
-`Tis`) and the jump to the join -/
+/-- the right operand of `&&` / `||`: laid out at `tb`, followed by `Tis` and the jump to the join -/
 theorem logical_body {fuel : Nat} (ih : SimE fo host P bodies fuel) {cur : Nat} {r : Expr F} {st st' : St F} {res : Res F}
     (h : evalF fo host bodies cur fuel r st = .ok (res, st'))
     {j tb join pcJoin entry : Nat} {rs vs : List (Val F)} {fr : List (Frame F)}
     (hlr : Located P j cur tb r)
     (hterm : InstrsAt P (tb + len r) (termsAfter P (tb + len r) [(.tis, none), (.jumpTo, some join)]))
-    (hwf : wfE r = true) (henf : enFree r = true) (hss : skipSafe r = true)
-    (hjoin : P.jumps[join]? = some pcJoin) (hne : join ≠ cur)
+    (hwf : wfE r = true) (henf : enFree r = true)
+    (hjoin : P.jumps[join]? = some pcJoin)
     (hpj : pcJoin < P.instrs.size) (hj : P.jumps[cur]? = some entry) (hent : entry < P.instrs.size) :
     tb < P.instrs.size ∧
     match res with
@@ -372,33 +371,20 @@ theorem logical_body {fuel : Nat} (ih : SimE fo host P bodies fuel) {cur : Nat} 
         ⟨pcJoin, Val.ofBool v.truthy :: rs, st'.inp :: vs, fr, st'.trace⟩
     | .restart v => ResOK fo host P entry tb pcJoin (tailR r) rs vs fr st (.restart v) st' := by
   have hpos := len_pos r
-  rcases termsAfter_tis hlr hwf hne with hta | ⟨hta, hends⟩
-  · rw [hta] at hterm
-    simp only [InstrsAt, and_true] at hterm
-    obtain ⟨ht1, ht2⟩ := hterm
-    have hsz := lt_size_of_get ht1
-    have hsz2 := lt_size_of_get ht2
-    refine ⟨by omega, ?_⟩
-    have ihx := ih r cur st res st' h j tb rs vs fr entry hlr hwf (.inr henf) hj hent hsz
-    cases res with
-    | val v =>
-      have hs : settle host st' (.val (Val.ofBool v.truthy)) = .ok (Val.ofBool v.truthy, st') := rfl
-      have htis := step_unary (fo := fo) (host := host) (P := P) (rs := rs) (vs := st'.inp :: vs) (fr := fr)
-        (x := v) ht1 hsz2 (by rfl) rfl hs
-      exact (ihx.toReach.snoc htis).snoc (step_jumpTo ht2 hjoin hpj)
-    | restart v => exact ihx
-  · rw [hta] at hterm
-    simp only [InstrsAt, and_true] at hterm
-    have hsz := lt_size_of_get hterm
-    refine ⟨by omega, ?_⟩
-    have ihx := ih r cur st res st' h j tb rs vs fr entry hlr hwf (.inr henf) hj hent hsz
-    cases res with
-    | val v =>
-      have hb := tis_bool fuel cur r st st' v hends hss hwf h
-      show Reach fo host P _ ⟨pcJoin, Val.ofBool v.truthy :: rs, _, _, _⟩
-      rw [← hb]
-      exact ihx.toReach.snoc (step_jumpTo hterm hjoin hpj)
-    | restart v => exact ihx
+  rw [termsAfter_tis] at hterm
+  simp only [InstrsAt, and_true] at hterm
+  obtain ⟨ht1, ht2⟩ := hterm
+  have hsz := lt_size_of_get ht1
+  have hsz2 := lt_size_of_get ht2
+  refine ⟨by omega, ?_⟩
+  have ihx := ih r cur st res st' h j tb rs vs fr entry hlr hwf (.inr henf) hj hent hsz
+  cases res with
+  | val v =>
+    have hs : settle host st' (.val (Val.ofBool v.truthy)) = .ok (Val.ofBool v.truthy, st') := rfl
+    have htis := step_unary (fo := fo) (host := host) (P := P) (rs := rs) (vs := st'.inp :: vs) (fr := fr)
+      (x := v) ht1 hsz2 (by rfl) rfl hs
+    exact (ihx.toReach.snoc htis).snoc (step_jumpTo ht2 hjoin hpj)
+  | restart v => exact ihx
 
 theorem sim_and {fuel : Nat} (ih : SimE fo host P bodies fuel)
     (l r : Expr F) : SimAt fo host P bodies (fuel + 1) (.and l r) := by
@@ -415,12 +401,12 @@ theorem sim_and {fuel : Nat} (ih : SimE fo host P bodies fuel)
   simp only [evalF] at h
   rcases eval_cases (fo := fo) (host := host) (bodies := bodies) (cur := cur) (fuel := fuel) (x := l) (st := st)
     with ⟨wl, st1, hx⟩ | ⟨w, st1, hx⟩ | ⟨e, hx⟩ | hx <;> simp only [hx] at h
-  · have ihl := (ih l cur st _ _ hx root pc rs vs fr entry hll hwf.1.1.1 hen' hj hent (by omega)).toReach
+  · have ihl := (ih l cur st _ _ hx root pc rs vs fr entry hll hwf.1.1 hen' hj hent (by omega)).toReach
     split at h
     · rename_i htr
       rcases eval_cases (fo := fo) (host := host) (bodies := bodies) (cur := cur) (fuel := fuel) (x := r) (st := st1)
         with ⟨wr, st2, hy⟩ | ⟨w, st2, hy⟩ | ⟨e, hy⟩ | hy <;> simp only [hy] at h
-      · obtain ⟨htb, hb⟩ := logical_body (rs := rs) (vs := vs) (fr := fr) ih hy hlr hterm hwf.1.1.2 hwf.1.2 hwf.2 hjoin hne
+      · obtain ⟨htb, hb⟩ := logical_body (rs := rs) (vs := vs) (fr := fr) ih hy hlr hterm hwf.1.2 hwf.2 hjoin
           hlt hj hent
         have hjmp := step_and (fo := fo) (host := host) (rs := rs) (vs := st1.inp :: vs) (fr := fr) (tr := st1.trace)
           (d := wl) hi1 hjj htb (by omega)
@@ -428,7 +414,7 @@ theorem sim_and {fuel : Nat} (ih : SimE fo host P bodies fuel)
         simp only [Out.ok.injEq, Prod.mk.injEq] at h
         obtain ⟨rfl, rfl⟩ := h
         exact ResOK.ofReach ((ihl.snoc hjmp).trans hb)
-      · obtain ⟨htb, hb⟩ := logical_body (rs := rs) (vs := vs) (fr := fr) ih hy hlr hterm hwf.1.1.2 hwf.1.2 hwf.2 hjoin hne
+      · obtain ⟨htb, hb⟩ := logical_body (rs := rs) (vs := vs) (fr := fr) ih hy hlr hterm hwf.1.2 hwf.2 hjoin
           hlt hj hent
         have hjmp := step_and (fo := fo) (host := host) (rs := rs) (vs := st1.inp :: vs) (fr := fr) (tr := st1.trace)
           (d := wl) hi1 hjj htb (by omega)
@@ -444,10 +430,9 @@ theorem sim_and {fuel : Nat} (ih : SimE fo host P bodies fuel)
       simp only [Out.ok.injEq, Prod.mk.injEq] at h
       obtain ⟨rfl, rfl⟩ := h
       have htb : tb < P.instrs.size := by
-        rcases termsAfter_tis hlr hwf.1.1.2 hne with hta | ⟨hta, _⟩ <;> rw [hta] at hterm <;>
-          simp only [InstrsAt, and_true] at hterm
-        · have := lt_size_of_get hterm.1; omega
-        · have := lt_size_of_get hterm; omega
+        rw [termsAfter_tis] at hterm
+        simp only [InstrsAt, and_true] at hterm
+        have := lt_size_of_get hterm.1; omega
       have hjmp := step_and (fo := fo) (host := host) (rs := rs) (vs := st1.inp :: vs) (fr := fr) (tr := st1.trace)
         (d := wl) hi1 hjj htb (by omega)
       simp only [htr, Bool.false_eq_true, if_false] at hjmp
@@ -455,7 +440,7 @@ theorem sim_and {fuel : Nat} (ih : SimE fo host P bodies fuel)
   · simp only [Out.ok.injEq, Prod.mk.injEq] at h
     obtain ⟨rfl, rfl⟩ := h
     refine ResOK.sub_restart (pend := []) (.refl _)
-      (ih l cur st _ _ hx root pc rs vs fr entry hll hwf.1.1.1 hen' hj hent (by omega)) (fun ht => ?_)
+      (ih l cur st _ _ hx root pc rs vs fr entry hll hwf.1.1 hen' hj hent (by omega)) (fun ht => ?_)
     simp only [tailR, Bool.and_eq_true] at ht
     exact (noR_sound ht.1 hx).elim
   · simp at h
@@ -476,16 +461,15 @@ theorem sim_or {fuel : Nat} (ih : SimE fo host P bodies fuel)
   simp only [evalF] at h
   rcases eval_cases (fo := fo) (host := host) (bodies := bodies) (cur := cur) (fuel := fuel) (x := l) (st := st)
     with ⟨wl, st1, hx⟩ | ⟨w, st1, hx⟩ | ⟨e, hx⟩ | hx <;> simp only [hx] at h
-  · have ihl := (ih l cur st _ _ hx root pc rs vs fr entry hll hwf.1.1.1 hen' hj hent (by omega)).toReach
+  · have ihl := (ih l cur st _ _ hx root pc rs vs fr entry hll hwf.1.1 hen' hj hent (by omega)).toReach
     split at h
     · rename_i htr
       simp only [Out.ok.injEq, Prod.mk.injEq] at h
       obtain ⟨rfl, rfl⟩ := h
       have htb : tb < P.instrs.size := by
-        rcases termsAfter_tis hlr hwf.1.1.2 hne with hta | ⟨hta, _⟩ <;> rw [hta] at hterm <;>
-          simp only [InstrsAt, and_true] at hterm
-        · have := lt_size_of_get hterm.1; omega
-        · have := lt_size_of_get hterm; omega
+        rw [termsAfter_tis] at hterm
+        simp only [InstrsAt, and_true] at hterm
+        have := lt_size_of_get hterm.1; omega
       have hjmp := step_or (fo := fo) (host := host) (rs := rs) (vs := st1.inp :: vs) (fr := fr) (tr := st1.trace)
         (d := wl) hi1 hjj htb (by omega)
       simp only [htr, if_true] at hjmp
@@ -493,7 +477,7 @@ theorem sim_or {fuel : Nat} (ih : SimE fo host P bodies fuel)
     · rename_i htr
       rcases eval_cases (fo := fo) (host := host) (bodies := bodies) (cur := cur) (fuel := fuel) (x := r) (st := st1)
         with ⟨wr, st2, hy⟩ | ⟨w, st2, hy⟩ | ⟨e, hy⟩ | hy <;> simp only [hy] at h
-      · obtain ⟨htb, hb⟩ := logical_body (rs := rs) (vs := vs) (fr := fr) ih hy hlr hterm hwf.1.1.2 hwf.1.2 hwf.2 hjoin hne
+      · obtain ⟨htb, hb⟩ := logical_body (rs := rs) (vs := vs) (fr := fr) ih hy hlr hterm hwf.1.2 hwf.2 hjoin
           hlt hj hent
         have hjmp := step_or (fo := fo) (host := host) (rs := rs) (vs := st1.inp :: vs) (fr := fr) (tr := st1.trace)
           (d := wl) hi1 hjj htb (by omega)
@@ -501,7 +485,7 @@ theorem sim_or {fuel : Nat} (ih : SimE fo host P bodies fuel)
         simp only [Out.ok.injEq, Prod.mk.injEq] at h
         obtain ⟨rfl, rfl⟩ := h
         exact ResOK.ofReach ((ihl.snoc hjmp).trans hb)
-      · obtain ⟨htb, hb⟩ := logical_body (rs := rs) (vs := vs) (fr := fr) ih hy hlr hterm hwf.1.1.2 hwf.1.2 hwf.2 hjoin hne
+      · obtain ⟨htb, hb⟩ := logical_body (rs := rs) (vs := vs) (fr := fr) ih hy hlr hterm hwf.1.2 hwf.2 hjoin
           hlt hj hent
         have hjmp := step_or (fo := fo) (host := host) (rs := rs) (vs := st1.inp :: vs) (fr := fr) (tr := st1.trace)
           (d := wl) hi1 hjj htb (by omega)
@@ -516,7 +500,7 @@ theorem sim_or {fuel : Nat} (ih : SimE fo host P bodies fuel)
   · simp only [Out.ok.injEq, Prod.mk.injEq] at h
     obtain ⟨rfl, rfl⟩ := h
     refine ResOK.sub_restart (pend := []) (.refl _)
-      (ih l cur st _ _ hx root pc rs vs fr entry hll hwf.1.1.1 hen' hj hent (by omega)) (fun ht => ?_)
+      (ih l cur st _ _ hx root pc rs vs fr entry hll hwf.1.1 hen' hj hent (by omega)) (fun ht => ?_)
     simp only [tailR, Bool.and_eq_true] at ht
     exact (noR_sound ht.1 hx).elim
   · simp at h
